@@ -420,6 +420,28 @@ func PayloadFill(id, sender uint64, seq int, topic string, n int) []byte {
 	return append(h, filler(id, sender, seq, n)...)
 }
 
+// Thresholds are message sizes around the boundaries that matter on the way through the relay:
+// websocket length encodings (125/126, 65535/65536), its 4096-byte write buffer, and a large one.
+var Thresholds = []int{0, 1, 125, 126, 127, 4095, 4096, 4097, 8192, 65535, 65536, 65537, 1 << 20, 1<<20 + 1}
+
+// TinyByte is what a message too short to carry a header consists of (0 or 1 of them).
+const TinyByte = '~'
+
+// PayloadSized returns a payload of exactly size bytes (when the header fits: header + filler;
+// otherwise size times TinyByte, which identifies nothing).
+func PayloadSized(id, sender uint64, seq int, topic string, size int) []byte {
+	base := len(PayloadFill(id, sender, seq, topic, 0)) - 1 // without the digits of the filler length
+	for f := size - base - 1; f >= 0 && f >= size-base-10; f-- {
+		if base+len(fmt.Sprint(f))+f == size {
+			return PayloadFill(id, sender, seq, topic, f)
+		}
+	}
+	if size > base+12 { // a length no filler count yields exactly (digit boundary): one byte less
+		return PayloadSized(id, sender, seq, topic, size-1)
+	}
+	return bytes.Repeat([]byte{TinyByte}, size)
+}
+
 type Tag struct {
 	ID, Sender uint64
 	Seq        int
@@ -430,8 +452,19 @@ type Tag struct {
 // ParseTags extracts every payload of a frame (the writer may have merged several); junk is the
 // number of bytes that are not part of any well-formed payload.
 func ParseTags(data []byte) (tags []Tag, junk int) {
+	tags, junk, tiny := ParseTagsTiny(data)
+	return tags, junk + tiny
+}
+
+// ParseTagsTiny is ParseTags that counts TinyByte bytes between payloads separately (messages of one byte).
+func ParseTagsTiny(data []byte) (tags []Tag, junk int, tiny int) {
 	s := data
 	for len(s) > 0 {
+		if s[0] == TinyByte {
+			tiny++
+			s = s[1:]
+			continue
+		}
 		if s[0] != '<' {
 			junk++
 			s = s[1:]
